@@ -88,8 +88,8 @@ def run(ctx, env):
         ok = bool(st) and st[0]["term"][0] == "count"
         ctx.ob("R14.5", path, "counted:%s" % field, ok, "%s.%s parsed by %s" % (adt, field, term_s(st[0]["term"])[:100] if st else "?"), site=st[0]["site"] if st else "")
     # R14.2
-    def is_take_mapres(nd):
-        return nd["path"].startswith("nom::combinator::map_res") and nd["kind"] in ("Item", "ClosureOnceShim") and "{closure#" in nd["path"] and any("nom::bytes::complete::take" in a for a in nd["args"])
+    from .layout import delimiting_node_pred
+    is_take_mapres = delimiting_node_pred(prog, an)
 
     targets = ["variable_versions::v9::FlowSetBody::parse", "variable_versions::ipfix::FlowSetBody::parse", "variable_versions::ipfix::FlowSet::parse_be"]
     for tp in targets:
